@@ -155,10 +155,21 @@ class Summary:
         self.tokens = tuple(x for _, x in toks)
         self.repo = repo
 
+    def _const(self, a: T.Any) -> T.Any:
+        """A free name that folds to a str/bool/None constant (a literal hoisted into a module constant) is that literal."""
+        if isinstance(a, tuple) and len(a) == 2 and a[0] == 'name' and isinstance(a[1], str) and '.' not in a[1] and self.mod.has_assign(a[1]):
+            try:
+                v = fold_expr(self.ctx.repo, self.mod, ast.Name(id=a[1], ctx=ast.Load()))
+            except Undecided:
+                return a
+            if isinstance(v, (str, bool)) or v is None:
+                return ('const', v)
+        return a
+
     def _tokarg(self, t: T.Any) -> T.Any:
-        if not t[4]:
+        if not t[4] and not t[5]:
             raise Undecided(f'{self.qn}: {show(t)} without token argument')
-        a = t[4][0]
+        a = self._const(t[4][0] if t[4] else t[5][0][1])
         if a[0] == 'const' and isinstance(a[1], str):
             return a[1]
         if a[0] == 'name' and t[2] == 'self.accept_any':
@@ -174,7 +185,8 @@ class Summary:
         if k == 'name':
             if t[1] in ('self.current', 'self.previous'):
                 return 'tok'
-            return ('name', t[1])
+            c = self._const(t)
+            return c if c[0] == 'const' else ('name', t[1])
         if k == 'call':
             fname, args = t[2], t[4]
             if fname == 'self.create_node' and args and args[0][0] == 'name' and is_node_class(self.repo, self.mod, args[0][1]):
@@ -320,10 +332,13 @@ def _rename_params(fn: ast.FunctionDef, shape: T.Any) -> T.Any:
 
 
 def _opaque_self_calls(shape: T.Any) -> T.List[str]:
+    """Parts of a result shape that were not understood: calls that are neither node constructions nor grammar operands, unresolved terms."""
     out: T.List[str] = []
     if isinstance(shape, tuple):
-        if len(shape) == 3 and shape[0] == 'call' and isinstance(shape[1], str) and shape[1].startswith('self.'):
+        if len(shape) == 3 and shape[0] == 'call' and isinstance(shape[1], str):
             out.append(shape[1])
+        elif len(shape) == 2 and shape[0] == '?':
+            out.append(str(shape[1])[:60])
         for x in shape:
             out += _opaque_self_calls(x)
     return out
@@ -406,8 +421,16 @@ def check_ternary_flag(ctx: RuleCtx, mod: Module) -> None:
              if a.kind == 'write' and a.term[1][0] == 'const' and isinstance(a.term[1][1], bool)}
     if len(flags) > 1:
         raise Undecided(f'Parser.e1: several boolean flags are written on the ternary path: {sorted(flags)}')
-    if not flags and any(t[4] or t[5] for s in rets if 'questionmark' in s.tokens for t in s.operands if t[2] == 'self.e1'):
-        raise Undecided('Parser.e1: the arm parses take arguments - nested ternaries may be rejected by another mechanism than a flag')
+    if not flags:
+        fn1 = mod.func(qn)
+        known = {'self.' + m for m in PARSER_VOCABULARY} | {'isinstance', 'ParseException'}
+        for s in rets:
+            if 'questionmark' not in s.tokens:
+                continue
+            if any(t[4] or t[5] for t in s.operands if t[2] == 'self.e1') or any(isinstance(n, (ast.With, ast.AsyncWith, ast.Try)) for n in ast.walk(fn1)) \
+                    or any(a.kind == 'call' and a.term[2] not in known and not is_node_class(ctx.repo, mod, a.term[2]) for a in s.sp.actions):
+                raise Undecided('Parser.e1: no boolean flag guards the ternary arms and the `?` path uses constructs (arguments, with/try, other calls) '
+                                'that may reject nested ternaries in another way')
     FLAG = next(iter(flags)) if flags else 'self.in_ternary'
     n = 0
     for s in rets:
@@ -452,7 +475,7 @@ def check_ternary_flag(ctx: RuleCtx, mod: Module) -> None:
 def check_e8(ctx: RuleCtx, mod: Module) -> None:
     qn = 'Parser.e8'
     fn = mod.func(qn)
-    rets, raises = _summaries(ctx, mod, 'e8', unroll=2)
+    rets, raises = _summaries(ctx, mod, 'e8', unroll=3)
     _check_raises(ctx, mod, qn, raises)
     seen: T.Set[str] = set()
     done: T.Set[T.Any] = set()
@@ -493,11 +516,13 @@ def check_e8(ctx: RuleCtx, mod: Module) -> None:
             ok = any(v and is_call(t, 'isinstance') and t[4][1] == ('name', 'IdNode') and semantic(s.shape(t[4][0])) == O('e9', 1) for t, v in s.sp.conds())
             ctx.require(ok, 'e8: a call is built only on a plain id', mod, qn, 'e8: guard IdNode on call',
                         'FunctionNode is built without testing that the callee is an IdNode', s.sp.last_node)
-    ctx.floor('e8 postfix paths', n, 6)
+    ctx.floor('e8 postfix paths', n, 4)
     ctx.require({'dot', 'lbracket'} <= seen, 'e8: method call and indexing are postfix operators of level 8', mod, qn, 'e8 postfix operators',
                 f'level 8 accepts only {sorted(seen)} after the primary; `.` and `[` are required', fn)
     # repetition: every postfix operator can follow every other one (a.b().c(), a[0][1], a[0].b(), a.b()[0])
-    pairs = {tuple(s.tokens[-2:]) for s in rets if len(s.tokens) >= 2 and s.tokens[0] != 'lparen'}
+    pairs = {(a, b) for s in rets for a, b in zip(s.tokens, s.tokens[1:])}
+    if any(_opaque_self_calls(semantic(s.shape(s.sp.result))) for s in rets):
+        raise Undecided(f'{qn}: postfix parsing continues in a helper this rule cannot see into')
     for pr in (('dot', 'dot'), ('dot', 'lbracket'), ('lbracket', 'dot'), ('lbracket', 'lbracket')):
         ctx.require(pr in pairs, f'e8: `{pr[0]}` can be followed by `{pr[1]}`', mod, qn, f'e8 repetition {pr[0]} {pr[1]}',
                     f'no path of e8 accepts `{pr[1]}` after `{pr[0]}`: postfix operators must be repeatable in any order', fn)
@@ -553,6 +578,9 @@ def check_e10(ctx: RuleCtx, mod: Module) -> None:
         if ok and cls == 'StringNode':
             res = s.sp.result
             kw = [v for k, v in res[5] if k == 'escape'] + list(res[4][2:] if res[2] == 'self.create_node' else res[4][1:])
+            kw = [v for v in kw if s._const(v) != ('const', True)]        # the default made explicit
+            if any(v[0] != 'const' for v in kw):
+                raise Undecided(f'{qn}: escape argument of StringNode is computed: {show(kw[0])}')
             ctx.require(not kw, 'e10: string literals are built with escape decoding enabled (default)', mod, qn, 'e10: StringNode escape argument',
                         f'the parser builds string literals with escape={show(kw[0]) if kw else ""}', s.sp.last_node)
     for toks in E10:
